@@ -49,12 +49,13 @@ def reservation_vs_render(h1, h2, as_colheader, needs_header, fn, src, pf, ps, s
               needs_header=needs_header, pageby_header_info=None, group_boundaries=None, component_borders={},
               page_number=1, data=PageData(), final_body_attrs=None, table_attrs=None, col_widths=[1.0])
     # the auto-header branch tests isinstance(page.data, pl.DataFrame) and builds a polars frame: stand in for both
-    saved = rmod.pl
-    rmod.pl = NS(DataFrame=_FrameStub)
+    import polars as _real_polars
+    saved = swapped((_real_polars, NS(DataFrame=_FrameStub)))
+    saved.__enter__()
     try:
         out = PageRenderer.render(r, doc, page)
     finally:
-        rmod.pl = saved
+        saved.__exit__()
     emitted = 0
     for x in out:
         if isinstance(x, tuple) and x[0] == "HROW":
@@ -77,7 +78,7 @@ SIZES = [9, 12, 18]
 
 def build(tier, seed):
     quick = tier == "quick"
-    T = 90 if quick else 900
+    T = 240 if quick else 900
     obs = []
     what = "every page holding >= 2 rows has sum(total_rows) <= max(1, nrow - reserved)"
     for n in (1, 2, 3):
